@@ -7,6 +7,7 @@ CONSTANTS
   WakeOffset = 1
   KeepFirstWaker = FALSE
   AvailLe = FALSE
+  WakeBeforeDecrement = FALSE
 SPECIFICATION Spec
 VIEW View
 INVARIANTS C17_TotalIsGuards C17_WakeOnRelease
